@@ -360,14 +360,14 @@ class Schema:
             return False
         return _always_raises(m.node.body) and not any(isinstance(n, (ast.Return, ast.Yield, ast.YieldFrom)) for n in walk_no_nested(m.node))
 
-    def desc_predicates(self, ci: ClassInfo) -> list:
+    def desc_predicates(self, ci: ClassInfo, mnames=("__init__", "from_obj")) -> list:
         """What the description side of a leaf class requires of a value (checks in __init__ / from_obj that lead to a raise): a
         narrower or wider acceptance sends some description values to another union alternative, i.e. to another encoding."""
         out = set()
         for c in self.repo.mro(ci):
             if c.module is self.common and c.name == "SuitObject":
                 break
-            for mname in ("__init__", "from_obj"):
+            for mname in mnames:
                 m = c.methods.get(mname)
                 if m is None:
                     continue
